@@ -85,6 +85,15 @@ func dispatch(what, tier string, seed uint64, replay string) int {
 			lc = c14Check()
 		}
 		if replay != "" {
+			if rf := readReplay(replay); rf.Kind == "cmd:c19" {
+				if ok, why := c19CmdReplayOK(a, rf); ok {
+					fmt.Printf("VIOLATION property=C19 replay=%s\n  reproduced: %s\n  %s\n", replay, rf.Sig, rf.Msg)
+					return 1
+				} else {
+					fmt.Printf("replay of %s did not reproduce: %s\n", replay, why)
+					return 0
+				}
+			}
 			return lc.replayCmd(a, replay)
 		}
 		return lc.run(a, tier, seed)
